@@ -330,8 +330,8 @@ Definition no_text (ks : list kid) : Prop := Forall (fun k => kkind k <> KText) 
 Lemma not_text_eqb k : k <> KText -> dkind_eqb k KText = false.
 Proof. destruct k; try reflexivity. congruence. Qed.
 
-Lemma not_text_empty k v : k <> KText -> text_empty k v = false.
-Proof. intros H. unfold text_empty. rewrite (not_text_eqb k H). reflexivity. Qed.
+Lemma not_text_empty fl k v : k <> KText -> text_blocked fl k v = false.
+Proof. intros H. unfold text_blocked, text_empty. rewrite (not_text_eqb k H). reflexivity. Qed.
 
 Lemma copy_kids_total nv nc ovm ocm : forall ks Nv Nc, no_text ks ->
   kids_len AVertex Nv ks -> kids_len ACell Nc ks ->
@@ -354,14 +354,14 @@ Proof.
       assert (Hsel : length (if nv <? Nv then select m v else fill_masked (ndv (kkind k)) m v) = nv).
       { destruct (nv <? Nv) eqn:E2; [rewrite select_length; lia|]. apply Nat.ltb_ge in E2.
         pose proof (count_le_length m). rewrite fill_masked_all_true; lia. }
-      rewrite format_length_eq by exact Hsel. rewrite (not_text_empty _ _ HTk). eexists; reflexivity.
+      rewrite format_length_eq by exact Hsel. rewrite (not_text_empty _ _ _ HTk). eexists; reflexivity.
     - destruct ocm as [m|]; [|eexists; reflexivity]. destruct (Hc m eq_refl) as [L N].
       assert (Lv : length v = Nc) by (apply (HLc k v); [left; reflexivity|exact Ea|exact Ev]).
       rewrite L, Lv, Nat.eqb_refl. simpl. rewrite NT, andb_false_r. simpl.
       assert (Hsel : length (if nc <? Nc then select m v else fill_masked (ndv (kkind k)) m v) = nc).
       { destruct (nc <? Nc) eqn:E2; [rewrite select_length; lia|]. apply Nat.ltb_ge in E2.
         pose proof (count_le_length m). rewrite fill_masked_all_true; lia. }
-      rewrite format_length_eq by exact Hsel. rewrite (not_text_empty _ _ HTk). eexists; reflexivity.
+      rewrite format_length_eq by exact Hsel. rewrite (not_text_empty _ _ _ HTk). eexists; reflexivity.
     - eexists; reflexivity. }
   destruct D as [k' Dk]. rewrite Dk. eexists; reflexivity.
 Qed.
@@ -388,7 +388,7 @@ Proof.
         assert (Hsel : length (if count m <? length (verts o) then select m v else fill_masked (ndv (kkind k)) m v) = count m).
         { destruct (count m <? length (verts o)) eqn:E2; [rewrite select_length; lia|]. apply Nat.ltb_ge in E2.
           pose proof (count_le_length m). rewrite fill_masked_all_true; lia. }
-        rewrite format_length_eq by exact Hsel. rewrite (not_text_empty _ _ HTk). eexists; reflexivity.
+        rewrite format_length_eq by exact Hsel. rewrite (not_text_empty _ _ _ HTk). eexists; reflexivity.
       - unfold data_copy. destruct (kvals k); eexists; reflexivity. }
     destruct T as [ks' Hk]. rewrite Hk. eexists; reflexivity.
   - rewrite L, Nat.eqb_refl. simpl.
